@@ -97,7 +97,7 @@ def codegen(crate_dir, target_dir, log, extra_flags=(), timeout=1500):
     return res, wall
 
 
-def prepare(meta, workdir, log, cut_regexes=(), keep_bodies=()):
+def prepare(meta, workdir, log, cut_regexes=(), keep_bodies=(), replace=()):
     """goto-cc / goto-instrument steps. Returns path of the final goto binary and the
     list of function bodies removed by the cut."""
     os.makedirs(workdir, exist_ok=True)
@@ -118,25 +118,54 @@ def prepare(meta, workdir, log, cut_regexes=(), keep_bodies=()):
         json.dump(fp, open(linked, "w"))
         step(["goto-instrument", "--function-pointer-restrictions-file", linked, out, out])
     step(["goto-instrument", "--add-library", "--no-malloc-may-fail", out, out])
+    replaced = []
+    if replace:
+        # goto-level stubbing (Kani cannot stub methods of generic trait impls): calls to the
+        # function whose *pretty* name matches `old` are redirected to the harness-crate function
+        # whose pretty name matches `new` (same signature; both must be unique)
+        try:
+            pretty = json.load(open(meta["symtab"].replace(".symtab.out", ".pretty_name_map.json")))
+        except Exception:
+            pretty = {}
+        inv = {}
+        for mangled, pn in pretty.items():
+            if pn:
+                inv.setdefault(pn, []).append(mangled)
+        names = step(["goto-instrument", "--list-goto-functions", out])
+        present = set(re.findall(r"/\* (\S+?),? ", names)) | set(re.findall(r"/\* (\S+) \*/", names))
+        for old_rx, new_rx in replace:
+            olds = [m for pn, ms in inv.items() if re.fullmatch(old_rx, pn) for m in ms if m in present]
+            news = [m for pn, ms in inv.items() if re.fullmatch(new_rx, pn) for m in ms if m in present]
+            if len(news) != 1:
+                raise Inconclusive(f"goto-level stub: replacement {new_rx!r} matches {len(news)} functions")
+            if len(olds) == 0:
+                continue          # the code under test does not call it in this harness
+            for o in olds:
+                step(["goto-instrument", "--replace-calls", f"{o}:{news[0]}", out, out])
+                replaced.append(f"{[pn for pn, ms in inv.items() if o in ms][0]} -> {[pn for pn, ms in inv.items() if news[0] in ms][0]}")
+    meta["_replaced"] = replaced
     removed = []
     if cut_regexes:
-        names = step(["goto-instrument", "--list-goto-functions", "--json-ui", out])
-        fnames = re.findall(r'"name"\s*:\s*"([^"]+)"', names)
-        for f in sorted(set(fnames)):
-            if any(re.search(rx, f) for rx in cut_regexes) and not any(re.search(k, f) for k in keep_bodies):
-                removed.append(f)
-        # remove in batches (command line length)
-        for i in range(0, len(removed), 50):
+        # goto-level cut: bodies of functions whose PRETTY name matches are removed and
+        # replaced by a no-op returning nondet (values are leaked instead of dropped)
+        listing = step(["goto-instrument", "--list-goto-functions", out])
+        pairs = re.findall(r"^(.*?) /\* (\S+?)(,? body not available)? \*/\s*$", listing, re.M)
+        removed_pretty = []
+        for pn, mangled, nobody in pairs:
+            if nobody:
+                continue
+            if any(re.search(rx, pn) for rx in cut_regexes) and not any(re.search(k, pn) for k in keep_bodies):
+                removed.append(mangled)
+                removed_pretty.append(pn)
+        for i in range(0, len(removed), 40):
             cmd = ["goto-instrument"]
-            for f in removed[i:i + 50]:
+            for f in removed[i:i + 40]:
                 cmd += ["--remove-function-body", f]
             step(cmd + [out, out])
-        if removed:
-            # bodies removed by the cut become no-ops that return nondet (values are leaked
-            # instead of dropped) rather than assert-false/assume-false
-            cmd = ["goto-instrument", "--generate-function-body-options", "nondet-return", "--generate-function-body",
-                   "|".join(re.escape(f) for f in removed) if len(removed) < 40 else "(" + "|".join(cut_regexes) + ")", out, out]
-            step(cmd)
+        for i in range(0, len(removed), 40):
+            rx = "(" + "|".join(re.escape(f) for f in removed[i:i + 40]) + ")"
+            step(["goto-instrument", "--generate-function-body-options", "nondet-return", "--generate-function-body", rx, out, out])
+        removed = removed_pretty
     step(["goto-instrument", "--generate-function-body-options", "assert-false-assume-false",
           "--generate-function-body", ".*", "--drop-unused-functions", out, out])
     step(["goto-instrument", "--ensure-one-backedge-per-target", out, out])
